@@ -82,8 +82,13 @@ def _noupd(S):
 
 
 class Ctx:
-    def __init__(self, k_return, k_break, k_raise, k_return_value=None):
+    def __init__(self, k_return, k_break, k_raise, k_return_value=None, k_continue=None):
         self.k_return, self.k_break, self.k_raise, self.k_return_value = k_return, k_break, k_raise, k_return_value
+        self.k_continue = k_continue
+
+
+def _no_loop():
+    raise Unsupported('break outside loop')
 
 
 class Compiler:
@@ -145,8 +150,11 @@ class Compiler:
                 return a > b
             if isinstance(op, ast.GtE):
                 return a >= b
-        if isinstance(e, ast.Call):   # pure queue observers
+        if isinstance(e, ast.Call):   # pure queue / thread observers
             f = e.func
+            if isinstance(f, ast.Attribute) and isinstance(f.value, ast.Name) and self.name(f.value.id) in self.p.threads and f.attr == 'is_alive':
+                tf = self.p.threads[self.name(f.value.id)]
+                return z3.And(S[f'${tf}.started'], z3.Not(z3.Or([S[f'pc.{tf}'] == l for l in self.end_of[tf]])))
             if isinstance(f, ast.Attribute) and isinstance(f.value, ast.Name) and self.name(f.value.id) in self.p.queues:
                 q = self.name(f.value.id)
                 if f.attr == 'qsize':
@@ -234,7 +242,7 @@ class Compiler:
             if s.orelse:
                 raise Unsupported('while-else')
             here = p.newloc(t, f'while@{L}')
-            ctx2 = Ctx(ctx.k_return, lambda: k, ctx.k_raise, ctx.k_return_value)
+            ctx2 = Ctx(ctx.k_return, lambda: k, ctx.k_raise, ctx.k_return_value, lambda: here)
             body = self.block(s.body, here, ctx2)
             if isinstance(s.test, ast.Constant) and s.test.value is True:
                 p.edge(t, here, body, label='while-true', line=L)
@@ -250,7 +258,7 @@ class Compiler:
             here = p.newloc(t, f'for@{L}')
             tgt = self.name(s.target.id)
             self.declare(tgt, 'int', NOITEM)
-            ctx2 = Ctx(ctx.k_return, lambda: k, ctx.k_raise, ctx.k_return_value)
+            ctx2 = Ctx(ctx.k_return, lambda: k, ctx.k_raise, ctx.k_return_value, lambda: here)
             body = self.block(s.body, here, ctx2)
             # next(source): item / StopIteration / raises
             p.edge(t, here, body, guard=lambda S: z3.And(S['$pulled'] != S['$fail_at'], S['$pulled'] < S['$n']),
@@ -262,6 +270,10 @@ class Compiler:
             return here
         if isinstance(s, ast.Break):
             return ctx.k_break()
+        if isinstance(s, ast.Continue):
+            if ctx.k_continue is None:
+                raise Unsupported('continue outside loop')
+            return ctx.k_continue()
         if isinstance(s, ast.Return):
             if s.value is not None:
                 if ctx.k_return_value is None:
@@ -423,7 +435,7 @@ class Compiler:
                     here = p.newloc(t, f'ret@{L}')
                     p.edge(t, here, k_after, upd=lambda S: {res: S[name]}, label=f'{f.id}-ret', line=L, local=True)
                     return here
-                ctx2 = Ctx(lambda: k_after, ctx.k_break, ctx.k_raise, k_return_value)
+                ctx2 = Ctx(lambda: k_after, _no_loop, ctx.k_raise, k_return_value, None)
                 entry = self.block(fd.body, k_after, ctx2)
                 self.subst, self.varargs = old, oldva
                 return entry
@@ -453,7 +465,12 @@ class Compiler:
                 return cont(va[0], k)
             if objname in self.p.queues:
                 nb = any(kw.arg == 'block' and getattr(kw.value, 'value', None) is False for kw in e.keywords)
+                # a timed get raises Empty if nothing arrives in time: time is an arbitrary environment quantity, so the
+                # timeout may fire whenever the queue is empty at that step
+                nb = nb or any(kw.arg == 'timeout' for kw in e.keywords) or (meth == 'get' and len(e.args) >= 2)
                 if meth == 'put':
+                    if any(kw.arg in ('timeout', 'block') for kw in e.keywords) or len(e.args) > 1:
+                        raise Unsupported('queue.put with block/timeout')
                     after = cont(None, k)
                     return self.flat_then(e.args[0], None, ctx, L, lambda nm, _k: self._put(objname, nm, after, L))
                 if meth in ('get', 'get_nowait'):
@@ -573,7 +590,8 @@ class Compiler:
             return self.memo[key]
 
         ctx_fin = Ctx(lambda: through_finally(ctx.k_return, 'ret'), lambda: through_finally(ctx.k_break, 'brk'),
-                      lambda kind: through_finally(lambda: ctx.k_raise(kind), ('raise', kind)), None)
+                      lambda kind: through_finally(lambda: ctx.k_raise(kind), ('raise', kind)), None,
+                      (lambda: through_finally(ctx.k_continue, 'cont')) if ctx.k_continue is not None else None)
         if ctx.k_return_value is not None:
             if fin:
                 raise Unsupported('return <value> through finally')
@@ -591,7 +609,7 @@ class Compiler:
                         self.handling.pop()
                     return self.memo[key]
             return ctx_fin.k_raise(kind)
-        ctx_body = Ctx(ctx_fin.k_return, ctx_fin.k_break, body_raise, ctx_fin.k_return_value)
+        ctx_body = Ctx(ctx_fin.k_return, ctx_fin.k_break, body_raise, ctx_fin.k_return_value, ctx_fin.k_continue)
         return self.block(s.body, k_norm, ctx_body)
 
 
